@@ -405,7 +405,7 @@ class Verdict:
             os.makedirs(rdir, exist_ok=True)
             path = os.path.join(rdir, "%s-%s.json" % (self.prop, sig))
             with open(path, "w") as f:
-                json.dump({"property": self.prop, "finding": desc, "replay": replay}, f, indent=1)
+                json.dump({"property": self.prop, "finding": desc, "replay": replay, "tier": self.tier, "seed": self.seed}, f, indent=1)
             lines.append("VIOLATION property=%s replay=%s" % (self.prop, path))
             log("violation: %s" % json.dumps(desc)[:600])
         cov = {
